@@ -190,6 +190,7 @@ Lemma ploop_S : forall f depth acc cur ts, ploop (S f) depth acc cur ts =
         end
     | [] => Ok (join_or acc cur, [])
     | TRP :: _ => if Nat.ltb 0 depth then Ok (join_or acc cur, ts) else Err
+    | TPipe :: _ => Ok (join_or acc cur, ts)
     | _ => Err
     end.
 Proof. reflexivity. Qed.
@@ -209,7 +210,7 @@ Proof.
   - split; [| split].
     + intros d ts H.
       rewrite (subexpr_S (S f) d ts). rewrite (subexpr_S f d ts). rewrite (subexpr_S f d ts) in H.
-      destruct ts as [|[n|ns|ns| | | | | ] r]; cbv beta match in H |- *; try reflexivity.
+      destruct ts as [|[n|ns|ns| | | | | | ] r]; cbv beta match in H |- *; try reflexivity.
       * (* TNot *)
         assert (Hx : subexpr f d r <> OutOfFuel)
           by (intro E; apply H; rewrite E; reflexivity).
@@ -228,7 +229,7 @@ Proof.
     + intros d acc cur ts H.
       rewrite (ploop_S (S f) d acc cur ts). rewrite (ploop_S f d acc cur ts).
       rewrite (ploop_S f d acc cur ts) in H.
-      destruct ts as [|[n|ns|ns| | | | | ] r]; cbv beta match in H |- *; try reflexivity.
+      destruct ts as [|[n|ns|ns| | | | | | ] r]; cbv beta match in H |- *; try reflexivity.
       * (* TAnd *)
         assert (Hx : subexpr f d r <> OutOfFuel)
           by (intro E; apply H; rewrite E; reflexivity).
@@ -293,26 +294,27 @@ Proof.
   - repeat split; intros; discriminate.
   - split; [| split].
     + intros d ts t r H. rewrite subexpr_S in H.
-      destruct ts as [|[n|ns|ns| | | | | ] r0]; cbv beta match in H; try discriminate.
+      destruct ts as [|[n|ns|ns| | | | | | ] r0]; cbv beta match in H; try discriminate.
       * inversion H; subst. simpl. lia.
       * destruct ns as [|n ns]; [discriminate|]. inversion H; subst. simpl. lia.
       * destruct ns as [|n ns]; [discriminate|]. inversion H; subst. simpl. lia.
       * destruct (subexpr f d r0) as [[c r']| |] eqn:E; try discriminate.
         inversion H; subst. apply IHs in E. simpl. lia.
       * destruct (filter f (S d) r0) as [[e l]| |] eqn:E; try discriminate.
-        destruct l as [|[n|ns|ns| | | | | ] r']; try discriminate.
+        destruct l as [|[n|ns|ns| | | | | | ] r']; try discriminate.
         inversion H; subst. apply IHf in E. simpl in *. lia.
     + intros d ts t r H. rewrite filter_S in H.
       destruct (subexpr f d ts) as [[cur r0]| |] eqn:E; try discriminate.
       apply IHs in E. apply IHp in H. lia.
     + intros d acc cur ts t r H. rewrite ploop_S in H.
-      destruct ts as [|[n|ns|ns| | | | | ] r0]; cbv beta match in H; try discriminate.
+      destruct ts as [|[n|ns|ns| | | | | | ] r0]; cbv beta match in H; try discriminate.
       * inversion H; subst. simpl. lia.
       * destruct (subexpr f d r0) as [[n r']| |] eqn:E; try discriminate.
         apply IHs in E. apply IHp in H. simpl. lia.
       * destruct (subexpr f d r0) as [[n r']| |] eqn:E; try discriminate.
         apply IHs in E. apply IHp in H. simpl. lia.
       * destruct (Nat.ltb 0 d); [| discriminate]. inversion H; subst. lia.
+      * inversion H; subst. lia.
 Qed.
 
 (* ------------------------------------------------------------------ *)
@@ -329,7 +331,7 @@ Proof.
   - destruct (len_all f) as [Ls [Lf Lp]].
     split; [| split].
     + intros d ts Hle. rewrite subexpr_S.
-      destruct ts as [|[n|ns|ns| | | | | ] r0]; cbv beta match; try discriminate.
+      destruct ts as [|[n|ns|ns| | | | | | ] r0]; cbv beta match; try discriminate.
       * destruct ns; discriminate.
       * destruct ns; discriminate.
       * simpl in Hle.
@@ -337,14 +339,14 @@ Proof.
         exfalso. apply (IHs d r0); [lia | exact E].
       * simpl in Hle.
         destruct (filter f (S d) r0) as [[e l]| |] eqn:E; try discriminate.
-        -- destruct l as [|[n|ns|ns| | | | | ] r']; discriminate.
+        -- destruct l as [|[n|ns|ns| | | | | | ] r']; discriminate.
         -- exfalso. apply (IHf (S d) r0); [lia | exact E].
     + intros d ts Hle. rewrite filter_S.
       destruct (subexpr f d ts) as [[cur r0]| |] eqn:E; try discriminate.
       * apply IHp. apply Ls in E. lia.
       * exfalso. apply (IHs d ts); [lia | exact E].
     + intros d acc cur ts Hle. rewrite ploop_S.
-      destruct ts as [|[n|ns|ns| | | | | ] r0]; cbv beta match; try discriminate.
+      destruct ts as [|[n|ns|ns| | | | | | ] r0]; cbv beta match; try discriminate.
       * simpl in Hle.
         destruct (subexpr f d r0) as [[n r']| |] eqn:E; try discriminate.
         -- apply IHp. apply Ls in E. lia.
@@ -367,7 +369,7 @@ Proof.
   intros ts. unfold parse_raw.
   pose proof (filter_fuel_for_total 0 ts) as Ht.
   destruct (filter (fuel_for ts) 0 ts) as [[e l]| |].
-  - destruct l; discriminate.
+  - destruct l as [|[n|ns|ns| | | | | | ] l]; discriminate.
   - discriminate.
   - exfalso. apply Ht. reflexivity.
 Qed.
@@ -407,20 +409,20 @@ Proof.
   - repeat split; intros; discriminate.
   - split; [| split].
     + intros d ts t r H. rewrite subexpr_S in H.
-      destruct ts as [|[n|ns|ns| | | | | ] r0]; cbv beta match in H; try discriminate.
+      destruct ts as [|[n|ns|ns| | | | | | ] r0]; cbv beta match in H; try discriminate.
       * inversion H; subst. exact I.
       * destruct ns as [|n ns]; [discriminate|]. inversion H; subst. apply or_fold_no_nand.
       * destruct ns as [|n ns]; [discriminate|]. inversion H; subst. apply and_fold_no_nand.
       * destruct (subexpr f d r0) as [[c r']| |] eqn:E; try discriminate.
         inversion H; subst. apply IHs in E. exact E.
       * destruct (filter f (S d) r0) as [[e l]| |] eqn:E; try discriminate.
-        destruct l as [|[n|ns|ns| | | | | ] r']; try discriminate.
+        destruct l as [|[n|ns|ns| | | | | | ] r']; try discriminate.
         inversion H; subst. apply IHf in E. exact E.
     + intros d ts t r H. rewrite filter_S in H.
       destruct (subexpr f d ts) as [[cur r0]| |] eqn:E; try discriminate.
       apply IHs in E. apply IHp in H; [exact H | exact I | exact E].
     + intros d acc cur ts t r H Ha Hc. rewrite ploop_S in H.
-      destruct ts as [|[n|ns|ns| | | | | ] r0]; cbv beta match in H; try discriminate.
+      destruct ts as [|[n|ns|ns| | | | | | ] r0]; cbv beta match in H; try discriminate.
       * inversion H; subst. apply join_or_no_nand; assumption.
       * destruct (subexpr f d r0) as [[n r']| |] eqn:E; try discriminate.
         apply IHs in E. apply IHp in H; [exact H | exact Ha | simpl; split; assumption].
@@ -429,16 +431,16 @@ Proof.
         simpl. apply join_or_no_nand; assumption.
       * destruct (Nat.ltb 0 d); [| discriminate]. inversion H; subst.
         apply join_or_no_nand; assumption.
+      * inversion H; subst. apply join_or_no_nand; assumption.
 Qed.
 
 Lemma parse_raw_no_nand : forall ts t, parse_raw ts = Ok t -> no_nand t.
 Proof.
   intros ts t H. unfold parse_raw in H.
   destruct (filter (fuel_for ts) 0 ts) as [[e l]| |] eqn:E; try discriminate.
-  destruct l as [|x l]; [| discriminate].
-  inversion H; subst.
   destruct (nonand_all (fuel_for ts)) as [_ [Nf _]].
-  apply Nf in E. exact E.
+  apply Nf in E.
+  destruct l as [|[n|ns|ns| | | | | | ] l]; try discriminate; inversion H; subst; exact E.
 Qed.
 
 (* ------------------------------------------------------------------ *)
@@ -508,6 +510,10 @@ Proof. intros d acc cur t Ht. subst t. exists 1. reflexivity. Qed.
 
 Lemma LoopOk_rp : forall d acc cur r t, t = join_or acc cur ->
   LoopOk (S d) acc cur (TRP :: r) (t, TRP :: r).
+Proof. intros d acc cur r t Ht. subst t. exists 1. reflexivity. Qed.
+
+Lemma LoopOk_pipe : forall d acc cur r t, t = join_or acc cur ->
+  LoopOk d acc cur (TPipe :: r) (t, TPipe :: r).
 Proof. intros d acc cur r t Ht. subst t. exists 1. reflexivity. Qed.
 
 (* any successful run agrees with the run at fuel_for *)
@@ -687,6 +693,31 @@ Proof.
 Qed.
 
 (* ------------------------------------------------------------------ *)
+(* a pipe section after the expression                                 *)
+(* ------------------------------------------------------------------ *)
+
+Lemma parse_raw_render_min_pipe : forall e s,
+  parse_raw (render_min e ++ TPipe :: s) = Ok (tree_of e).
+Proof.
+  intros e s. destruct (render_all e) as [_ [_ H0]].
+  unfold parse_raw, render_min.
+  assert (HF : FilOk 0 (render 0 e ++ TPipe :: s) (tree_of e, TPipe :: s)).
+  { apply FilOk_start. apply H0. apply LoopOk_pipe. apply st0_join. }
+  rewrite (FilOk_fuel_for _ _ _ HF). reflexivity.
+Qed.
+
+Lemma parse_raw_render_full_pipe : forall e s,
+  parse_raw (render_full e ++ TPipe :: s) = Ok (tree_of e).
+Proof.
+  intros e s. unfold parse_raw.
+  assert (HF : FilOk 0 (render_full e ++ TPipe :: s) (tree_of e, TPipe :: s)).
+  { apply FilOk_start. exists (tree_of e), (TPipe :: s). split.
+    - apply render_full_sub.
+    - apply LoopOk_pipe. reflexivity. }
+  rewrite (FilOk_fuel_for _ _ _ HF). reflexivity.
+Qed.
+
+(* ------------------------------------------------------------------ *)
 (* end-to-end statements                                               *)
 (* ------------------------------------------------------------------ *)
 
@@ -720,4 +751,29 @@ Proof.
   inversion H; subst. exists e. split; [reflexivity |].
   destruct (propagate_not_sound e (parse_raw_no_nand ts e E)) as [He _].
   exact He.
+Qed.
+
+(* the filter of `e | <pipe section>`: parses, denotes e, for EVERY continuation after the pipe *)
+Lemma parse_denotes_pipe : forall e s, exists t,
+  parse (render_min e ++ TPipe :: s) = Ok t /\ parse (render_full e ++ TPipe :: s) = Ok t /\
+  (forall v, eval v t = den v e).
+Proof.
+  intros e s. exists (finish (tree_of e)).
+  destruct (propagate_not_sound (tree_of e) (tree_of_no_nand e)) as [He _].
+  split; [| split].
+  - unfold parse. rewrite parse_raw_render_min_pipe. reflexivity.
+  - unfold parse. rewrite parse_raw_render_full_pipe. reflexivity.
+  - intros v. rewrite He. apply tree_of_den.
+Qed.
+
+(* what follows the first top-level pipe does not influence the parsed filter; it is the query
+   parsed without any pipe section *)
+Lemma pipe_suffix_irrelevant : forall e s,
+  parse (render_min e ++ TPipe :: s) = parse (render_min e) /\
+  parse (render_full e ++ TPipe :: s) = parse (render_full e).
+Proof.
+  intros e s. unfold parse.
+  rewrite parse_raw_render_min_pipe, parse_raw_render_min,
+          parse_raw_render_full_pipe, parse_raw_render_full.
+  split; reflexivity.
 Qed.
